@@ -7,7 +7,7 @@ ASSUME = [
     'a replica fed by the log = the node restarted (replays the durable log); a replica fed by a snapshot = forced raft snapshot followed by a restart',
     'message of death: an entry of type MessageOfDeath carrying the client message id reaches the FSM (what a replay of a marked entry looks like)',
 ]
-RULE = 'all sequences of the given depth over {postA, retryA, pingA (a PING line, which is a message like any other), postB, retryB, postS, retryS (S = a services link whose lines carry a prefix), deathA, snapshot, foldsnapshot (compaction time far in the future: every entry is folded into the snapshot state), restart}; oracle after every operation (log entries per client message id == 1, marker == last id, retry answered 200) and delivery exactly once in post order at the end'
+RULE = 'all sequences of the given depth over {postA, retryA, pingA (a PING line, which is a message like any other), junkA (a prefix without a command: the parser yields no message), postB, retryB, postS, retryS (S = a services link whose lines carry a prefix), deathA, snapshot, foldsnapshot (compaction time far in the future: every entry is folded into the snapshot state), restart}; oracle after every operation (log entries per client message id == 1, marker == last id, retry answered 200) and delivery exactly once in post order at the end'
 
 def prebuild():
     apidrive.build()
